@@ -445,7 +445,9 @@ def foreign_compressed(case):
     fails = []
     data = contents(case['tier'], random.Random(0))[case['content']]
     data = data.encode('utf-8') if isinstance(data, str) else data
-    lit = b'b' + b'\x00' + (1700000000).to_bytes(4, 'big') + data
+    # the file name another producer put there: whatever it is (a relative or absolute path, backslashes), it is read as it is
+    name = [b'', b'dir/sub/file.txt', b'..\\..\\other\\name.bin', b'/abs/path/name'][(len(case['content']) + len(case['comp']) + len(case['header'])) % 4]
+    lit = b'b' + bytes([len(name)]) + name + (1700000000).to_bytes(4, 'big') + data
     litpkt = bytes([0xC0 | 11, 0xFF]) + len(lit).to_bytes(4, 'big') + lit
     comp = case['comp']
     if comp == 'ZIP':
@@ -472,6 +474,8 @@ def foreign_compressed(case):
                 fails.append('%s import of a %s message of another producer (%s header): content differs (%d octets, want %d)' % (label, comp, case['header'], len(got), len(data)))
             if not m.is_compressed:
                 fails.append('%s import of a %s message of another producer: not reported as compressed' % (label, comp))
+            if m.filename != name.decode('utf-8'):
+                fails.append('%s import of a message of another producer: file name %r read as %r' % (label, name.decode('utf-8'), m.filename))
         except Exception as ex:
             fails.append('%s import of a %s message of another producer (%s header, content %s) raised %s: %s'
                          % (label, comp, case['header'], case['content'], type(ex).__name__, str(ex)[:80]))
